@@ -20,5 +20,27 @@ def run(tier, v, wd, replay=None):
             out.write(open(part).read())
     repo = vlib.scratch_repo(wd, "stub")
     run_vectors(v, wd, repo, "./component/outbound/dialer/", "TestVerifC15Set", infile, timeout=900)
-    v.assumptions += ["set level (AliveDialerSet = one group x network type); latencies in units of 10ms; MinLastLatency and Random policies",
+    # group level: fallback chain (data-UDP -> DNS-UDP -> TCP, other family when allowed), exclusion, last resort, run-time policy switches
+    r = vlib.tlc(wd, "GroupSelect", "GroupSelect_mc.cfg", timeout=1500)
+    v.add_tlc(r)
+    if r.violated:
+        raise vlib.Infra("GroupSelect.tla violates %s in the model" % r.violated)
+    gfile = os.path.join(wd.path, "c15g.ndjson")
+    gn = 1500 if tier == "quick" else 30000
+    with open(gfile, "w") as out:
+        for cfg, k in [("GroupSelect_gen.cfg", gn), ("GroupSelect_gen2.cfg", gn), ("GroupSelect_gen1.cfg", gn // 5)]:
+            part = gfile + "." + cfg
+            r = vlib.tlc(wd, "GroupSelect", cfg, emit_to=part, simulate={"num": k}, depth=20, workers=4, timeout=1500, max_emit=k)
+            v.add_tlc(r)
+            out.write(open(part).read())
+        # exhaustive: every 6-event history over 2 nodes x one type x all policies that ends in a selection
+        part = gfile + ".bfs"
+        r = vlib.tlc(wd, "GroupSelect", "GroupSelect_bfs.cfg", emit_to=part, timeout=1500)
+        v.add_tlc(r)
+        if r.violated:
+            raise vlib.Infra("GroupSelect.tla violates %s in the model (bfs)" % r.violated)
+        out.write(open(part).read())
+    run_vectors(v, wd, repo, "./component/outbound/", "TestVerifC15Group", gfile, timeout=900, outname="out-g.json")
+    v.assumptions += ["group level: health notifications through ReportUnavailableForced / MarkAliveForReloadFallback, selection through SelectWithExclusionResult; which alive node a min policy prefers is judged at set level only",
+                      "set level (AliveDialerSet = one group x network type); latencies in units of 10ms; MinLastLatency and Random policies",
                       "an alive node without any measurement is treated optimistically by the code (sorting latency 0); the property layer does not constrain switches to such a node"]
